@@ -67,6 +67,11 @@ func (s *State) evalIndexAssigment(which ast.Node, index, value object.Object) o
 	if !ok {
 		return s.NewError("identifier not found: " + id.Literal())
 	}
+	if object.Constant(id.Literal()) {
+		// Checked before touching anything: a large array or map is updated in place, after which the
+		// constant check done by Set() would compare the (already modified) value with itself.
+		return s.NewError("attempt to change constant " + id.Literal())
+	}
 	val = object.Value(val) // deref.
 	switch val.Type() {
 	case object.ARRAY:
@@ -485,6 +490,9 @@ func (s *State) deleteMapEntry(idxE *ast.IndexExpression, index object.Object) o
 	// TODO: handle arrays too? though delete arr[idx] == arr[0:idx]+arr[idx+1:] so... no point
 	if obj.Type() != object.MAP {
 		return s.NewError("delete index on non map: " + id + " " + obj.Type().String())
+	}
+	if object.Constant(id) { // same as for index assignment: large maps are modified in place.
+		return s.NewError("attempt to change constant " + id)
 	}
 	log.LogVf("remove map: %s from %s", index.Inspect(), id)
 	m := obj.(object.Map)
